@@ -669,6 +669,24 @@ def run_case(case, mon):
         mon.violation("default-root-differs:%s:%s" % (site, fam), "str() of the statement differs from its rendering through %s.SQL_CONTEXT: %r vs %r" % (
             d, (sql_s or repr(es))[:240], sql_n[:240]))
         return
+    # the active context decides the quote character, also through get_parameterized_sql(ctx) with a context that carries no
+    # parameterizer: the same statement under the *other* quoting convention must be the same text with the other quote character
+    if mon.evaluations % 3 == 0:
+        try:
+            reg = registry()
+            o = SITES[site](reg[d], n)
+            if isinstance(o, reg["QueryBuilder"]):
+                other = "MySQLQuery" if DIALECT_OF[d] != "mysql" else "PostgreSQLQuery"
+                octx = contexts()[other]
+                via_param = o.get_parameterized_sql(octx)[0]
+                direct = o.get_sql(octx.copy(parameterizer=reg["Parameterizer"]()))
+                mon.count("foreign_context_entry_path_checks")
+                if via_param != direct:
+                    mon.violation("caller-context-ignored:%s:%s" % (site, fam), "get_parameterized_sql(ctx) with %s's context renders %r, get_sql with that context and a "
+                                  "parameterizer %r" % (other, via_param[:220], direct[:220]))
+                    return
+        except Exception:
+            mon.count("foreign_context_entry_path_raises")
     if not (n.isalnum() and n.islower()):
         mon.nontrivial([site, d, n])
     # 3. engine
